@@ -545,6 +545,7 @@ func runC13(c *Ctx) {
 	checkStatusCaseNextToDataCase(c, "R21", true)
 	checkKnownErrorNotAnsweredWithNil(c, "R22")
 	checkSourceErrorBehindChunk(c, "R23")
+	checkConnSendReturnsTheWritersError(c, "R24")
 
 	// R7: ReadFrom / ReadFromWithConcurrency leave the File offset at the end of the intact prefix
 	checkOffsetStores(c, "R7", map[string]bool{"(*File).ReadFrom": true, "(*File).readFromWithConcurrency": true})
